@@ -416,7 +416,6 @@ def run_check(fn, prop):
         rc = fn(c)
         if rc is None:
             rc = c.finish()
-        shutil.rmtree(os.path.join(BUILD, "tlcmeta"), ignore_errors=True)
         return rc
     except ToolFailure as e:
         print("TOOL-FAILURE property=%s: %s" % (prop, str(e)[:6000]), file=sys.stderr)
